@@ -18,7 +18,7 @@ BOUNDS = {
              "depth >=2); ~460 const literals (35 atoms, lists <=2 of 19 items); object bases: every object literal of <=2 fields "
              "over (declared + unknown) keys x 11 values incl. duplicates/permutations and 3 fields x 3 values (depth >=2 wrappers: "
              "<=2 fields x 3 values), wrapped in lists; every variable position of the template literals x {absent, null, valid, "
-             "defaulted}; get_variable_values: 4 defaults x (absent + menu values)}",
+             "defaulted} x {no fragment scope, fragment declares the variable itself: absent / null / valid}; get_variable_values: 4 defaults x (absent + menu values + one-shot iterators)}; non-dict mappings (7 kinds) in every object position; one default object shared by 5 wrappings x all 120 application orders",
     "thorough": "quick at full width under every wrapper, with 16 values per dict key, 3-field object literals x 5 values, lists of "
                 "<=2 over the full 219-value menu for the depth <=1 wrappers",
 }
